@@ -190,8 +190,13 @@ def make_base(backend, d):
     from xandikos.store.git import BareGitStore, TreeGitStore
     from xandikos.store.vdir import VdirStore
 
-    cls = {"tree-git": TreeGitStore, "bare-git": BareGitStore, "vdir": VdirStore}[backend]
+    cls = {"tree-git": TreeGitStore, "bare-git": BareGitStore, "vdir": VdirStore}[backend.split("+")[0]]
     s = cls.create(d)
+    if backend.endswith("+cfg"):
+        # metadata kept in the repository's own configuration ([xandikos] section)
+        c = s.repo.get_config()
+        c.set((b"xandikos",), b"type", b"calendar")
+        c.write_to_path()
     s.load_extra_file_handler(ICalendarFile)
 
     def ics(uid, v):
@@ -303,8 +308,10 @@ class Explore:
         total = 0
         cases = [(b, o) for b in (req.get("backends") or ["tree-git", "bare-git", "vdir"]) for o in ("replace", "create", "delete", "setprop")
                  if not (b == "vdir" and o == "setprop")]
+        cases += [(b, "setprop") for b in ("tree-git+cfg", "bare-git+cfg") if not req.get("backends")]
         if quick:
-            cases = [("tree-git", "replace"), ("tree-git", "create"), ("vdir", "replace"), ("vdir", "create"), ("bare-git", "replace")]
+            cases = [("tree-git", "replace"), ("tree-git", "create"), ("vdir", "replace"), ("vdir", "create"), ("bare-git", "replace"),
+                     ("tree-git+cfg", "setprop")]
         for backend, op in cases:
             bad, n = explore(backend, op, repo)
             total += n + 1
@@ -318,7 +325,8 @@ class Explore:
                         "observed": bad["observed"], "witness": w}
         return {"failing": False, "tried": total, "known": sorted(seen_known),
                 "bound": "every crash point (before/after each rename, replace, unlink, mkdir, open-for-write, close; middle of every file write) of "
-                         + ("replace and create on tree-git and vdir, replace on bare-git" if quick else "replace, create, delete, set-displayname on tree-git, bare-git and vdir")
+                         + ("replace and create on tree-git and vdir, replace on bare-git, set-displayname with git-config metadata" if quick
+                            else "replace, create, delete, set-displayname on tree-git, bare-git and vdir, set-displayname with git-config metadata")
                          + ", prior contents: two resources and a display name"}
 
     def search(self, req):
